@@ -11,6 +11,11 @@ open Clipper.Props.C12
 #print axioms inputsOf_replay
 #print axioms used_eq_fresh_replay
 #print axioms reuseable_shared
+#print axioms execute_eq_fresh_paths
+#print axioms execute_history_independent_paths
+#print axioms pinputsOf_replay
+#print axioms used_eq_fresh_replay_paths
+#print axioms execute_path_order_independent
 #print axioms offset_frame_local
 #print axioms delta_member_unchanged
 #print axioms refFrame_is_alone
